@@ -265,9 +265,25 @@ Scenario generate(const std::string& prop, uint64_t seed, const std::string& tie
     toBox(sc, sc.tgt);
 
     // grouping
-    long nbLeavesGuess = std::max<long>(1, long(sc.src.size()));
-    const long bs[] = {1, 2, 3, 4 + long(r.below(13)), nbLeavesGuess, 1000000};
-    sc.blockSize = bs[r.below(6)];
+    // number of occupied leaves, by my own binning (only used to pick block sizes around interesting relations)
+    long nbLeaves = 1;
+    {
+        std::set<std::array<long, 3>> occ;
+        const long cells = 1L << (sc.height - 1);
+        for (const auto& p : sc.src) {
+            std::array<long, 3> c;
+            for (int d = 0; d < 3; ++d) {
+                const double corner = sc.centre[size_t(d)] + sc.width[size_t(d)] * (-1.0 / 2.0);
+                long k = long((p[size_t(d)] - corner) / (sc.width[size_t(d)] / double(cells)));
+                c[size_t(d)] = std::min(cells - 1, std::max(0L, k));
+            }
+            occ.insert(c);
+        }
+        nbLeaves = std::max<long>(1, long(occ.size()));
+    }
+    const long bs[] = {1, 2, 3, 4 + long(r.below(13)), nbLeaves, 1000000,
+                       std::max(1L, nbLeaves - 1), nbLeaves + 1, (nbLeaves + 1) / 2, (nbLeaves + 2) / 3, 7, 8, 9, 1 + long(r.below(uint64_t(nbLeaves)))};
+    sc.blockSize = bs[r.below(14)];
     if (sc.src.size() + sc.tgt.size() > 200 && sc.blockSize < 3) sc.blockSize = 3 + long(r.below(6));   // keeps the task count of one run in the thousands
     sc.oneGroupPerParent = r.chance(0.35);
     sc.upper = r.chance(0.7) ? (sc.isPeriodic() ? 1 : 2) : long(r.below(uint64_t(sc.height + 1)));
